@@ -50,6 +50,12 @@ type c14Case struct {
 	framing string // cl | stream
 	sizes   []int
 
+	// status dimension: 0 = 200 (206 + Content-Range when partial and the request carries Range);
+	// 204 / 304 are bodiless whatever the header says
+	status  int
+	partial bool
+	ifRange string
+
 	// attempt sequences (lane resend): the first preCount requests of the case are answered with
 	// preStatus (307 back to the same URL, or 503) instead of the response proper
 	preStatus, preCount int
@@ -65,6 +71,19 @@ type c14Case struct {
 	seenAE []string
 	aeLog  []string // Accept-Encoding of every request seen for the case ("none", or values joined by |)
 	served int
+}
+
+// bodiless: a status that never has a body (RFC 9110); the origin sends none and no Content-Length.
+func (c *c14Case) bodiless() bool { return c.status == 204 || c.status == 304 }
+
+func (c *c14Case) wantStatus(hasRange bool) int {
+	switch {
+	case c.status != 0:
+		return c.status
+	case c.partial && hasRange:
+		return 206
+	}
+	return 200
 }
 
 // c14JoinAE renders the Accept-Encoding values one request carried.
@@ -120,10 +139,17 @@ func (o *c14Origin) ServeHTTP(w http.ResponseWriter, r *http.Request) {
 	}
 	h.Set("Content-Type", c.ctype)
 	h.Set("X-Keep", "k")
+	if c.bodiless() {
+		w.WriteHeader(c.status)
+		return
+	}
 	if c.framing == "cl" {
 		h.Set("Content-Length", strconv.Itoa(len(c.wire)))
 	}
-	w.WriteHeader(200)
+	if c.wantStatus(r.Header.Get("Range") != "") == 206 {
+		h.Set("Content-Range", fmt.Sprintf("bytes 0-%d/%d", len(c.wire)-1, len(c.wire)+1000))
+	}
+	w.WriteHeader(c.wantStatus(r.Header.Get("Range") != ""))
 	if c.framing == "stream" {
 		if f, ok := w.(http.Flusher); ok {
 			f.Flush()
@@ -298,6 +324,7 @@ func (e *c14Env) client(proto string, dc, auto bool) *Client {
 // ---------------------------------------------------------------------------- running a case
 
 type c14Obs struct {
+	status    int
 	rtErr     string
 	ae        string   // Accept-Encoding the origin saw ("none", or values joined by |)
 	hdr       []string // tracked response header fields k,v,k,v…
@@ -401,6 +428,9 @@ func (e *c14Env) run(c *c14Case) (o c14Obs) {
 	if c.rng != "" {
 		rq.SetHeader("Range", c.rng)
 	}
+	if c.ifRange != "" {
+		rq.SetHeader("If-Range", c.ifRange)
+	}
 	var resp *Response
 	var err error
 	if p, bad := verifh.Safely(func() { resp, err = rq.Send(c.method, e.base[c.proto]+"/") }); bad {
@@ -426,6 +456,7 @@ func c14Observe(c *c14Case, hr *http.Response, o *c14Obs) {
 			o.hdr = append(o.hdr, k, v)
 		}
 	}
+	o.status = hr.StatusCode
 	o.n = hr.ContentLength
 	o.unc = hr.Uncompressed
 	o.proto = hr.ProtoMajor
@@ -494,13 +525,21 @@ func (c *c14Case) sentHeader() []string {
 	for _, v := range c.ce {
 		h = append(h, "Content-Encoding", v)
 	}
-	if c.framing == "cl" {
+	if c.framing == "cl" && !c.bodiless() {
 		h = append(h, "Content-Length", strconv.Itoa(len(c.wire)))
+	}
+	if c.bodiless() && c.proto == "h3" {
+		h = append(h, "Content-Length", "0") // quic-go's http3 server declares the empty body
 	}
 	return append(h, "X-Keep", "k")
 }
 
+// declaredLength: Response.ContentLength as the framing layer reports it (before any decoding).
 func (c *c14Case) declaredLength() int64 {
+	if c.bodiless() {
+		// HTTP/1.1 (fixLength), HTTP/2 (END_STREAM on HEADERS), HTTP/3 (Content-Length: 0 from the origin)
+		return 0
+	}
 	if c.framing == "cl" {
 		return int64(len(c.wire))
 	}
@@ -509,7 +548,7 @@ func (c *c14Case) declaredLength() int64 {
 
 // hasBody: does the stack install a body reader (model input; HTTP/3 ignores it)?
 func (c *c14Case) hasBody() bool {
-	return c.method != "HEAD" && (c.framing == "stream" || len(c.wire) > 0)
+	return c.method != "HEAD" && !c.bodiless() && (c.framing == "stream" || len(c.wire) > 0)
 }
 
 func c14b(b bool) string {
@@ -540,7 +579,7 @@ func (c *c14Case) refDigest(alg string) string {
 
 // wireBody: what the framing layer delivers (nothing for HEAD).
 func (c *c14Case) wireBody() []byte {
-	if c.method == "HEAD" {
+	if c.method == "HEAD" || c.bodiless() {
 		return nil
 	}
 	if c.stream == "short" {
@@ -614,7 +653,10 @@ func (c *c14Case) oracle(o c14Obs) (ok bool, why string) {
 		ce = c.ce[0]
 	}
 	decode := c.method != "HEAD" && ((transportAsked && strings.EqualFold(ce, "gzip")) || (c.auto && c14Supported(ce)))
-	if c.stream == "emptywire" {
+	if want := c.wantStatus(c.rng != ""); o.status != want {
+		return false, fmt.Sprintf("status %d, sent %d", o.status, want)
+	}
+	if c.stream == "emptywire" || c.bodiless() {
 		return true, "" // a zero-length body is not an encoded payload: only model correspondence
 	}
 	hdr := strings.Join(o.hdr, "\x00")
@@ -691,6 +733,7 @@ var c14Cfgs = []c14Cfg{
 	{false, true, "gzip, deflate, br, zstd"}, // caller-set + AutoDecompress (the browser-like setup)
 	{true, true, ""},                          // DisableCompression + AutoDecompress
 	{false, false, "gzip"},                    // caller asks for gzip itself: still untouched
+	{false, false, "gzip;q=1.0, identity;q=0.5, *;q=0"}, // q-values: still the caller's own negotiation
 }
 
 type c14Enc struct {
@@ -748,6 +791,30 @@ func c14Matrix(r *rand.Rand, proto string) []*c14Case {
 					method: m.method, rng: m.rng, ce: enc.ce, ctype: "application/octet-stream", payload: p, wire: wire,
 					stream: "valid", alg: alg, framing: "cl", sizes: verifc14.Sizes(r),
 				})
+			}
+		}
+	}
+	// status dimension: 206 + Content-Range to a Range request (with and without If-Range), and the
+	// bodiless 204 / 304 carrying a Content-Encoding all the same
+	for ci, cfg := range c14Cfgs {
+		for _, enc := range []c14Enc{c14Encs[0], c14Encs[2], c14Encs[6], c14Encs[8]} {
+			for _, st := range []int{206, 204, 304} {
+				p := verifc14.Payload(r, 1+r.Intn(3))
+				wire, alg := c14Encode(enc, p)
+				c := &c14Case{
+					id: fmt.Sprintf("%s-st-%d-%d-%s", proto, ci, st, enc.name), proto: proto, dc: cfg.dc, auto: cfg.auto, ae: cfg.ae,
+					method: "GET", ce: enc.ce, ctype: "application/octet-stream", payload: p, wire: wire,
+					stream: "valid", alg: alg, framing: "cl", sizes: verifc14.Sizes(r),
+				}
+				if st == 206 {
+					c.partial, c.rng = true, "bytes=0-"
+					if r.Intn(2) == 0 {
+						c.ifRange = "\"etag-1\""
+					}
+				} else {
+					c.status = st
+				}
+				out = append(out, c)
 			}
 		}
 	}
@@ -948,6 +1015,9 @@ func c14RunLane(t *testing.T, s *verifh.Session, e *c14Env, cases []*c14Case, ne
 		} else if c.rng != "" {
 			count("Range")
 		}
+		if o.status != 200 && o.rtErr == "" {
+			count(fmt.Sprintf("status:%d", o.status))
+		}
 		if o.unc {
 			count("decoded")
 			count("decoded:" + strings.ToLower(c.ce[0]))
@@ -977,7 +1047,7 @@ func c14RunLane(t *testing.T, s *verifh.Session, e *c14Env, cases []*c14Case, ne
 
 const c14Rule = "in-process origin; FULL matrix {default, DisableCompression, AutoDecompress, caller Accept-Encoding, caller AE+AutoDecompress, DisableCompression+AutoDecompress, caller AE gzip} x {GET, HEAD, Range GET} x Content-Encoding {gzip, deflate, br, zstd, identity, unknown, none, empty value, GZIP, Gzip, Br, ZSTD, x-gzip, 'gzip, br', 'br,gzip', two header lines, 'gzip;q=1'} with payloads {empty,tiny,text,random}; plus random decoded cases: payload up to multi-MiB, multi-member gzip, Content-Length vs streamed framing, streams truncated / bit-flipped (first bytes, last bytes, anywhere), zero-length body, multi-member gzip / multi-frame zstd messages that end BEFORE the declared Content-Length at a member/frame boundary, just after it, or anywhere (decoded under every configuration and undecoded; oracle: read error, never a silently shortened body), 1-4 cycling Read sizes from {1..65536}. Observed: Accept-Encoding at the origin, Response.Header (Content-Encoding, Content-Length, X-Keep), ContentLength, Uncompressed, body bytes + final read error. Compared with the Lean model (c14x) and judged by an independent Go oracle of the property text; non-trivial = a Content-Encoding was sent or the body was decoded"
 
-var c14Need = []string{"short:boundary", "short:anywhere", "short-decoded", "decoded", "untouched", "HEAD", "Range", "decoded:gzip", "decoded:deflate", "decoded:br", "decoded:zstd", "stream:trunc", "stream:flip", "stream:emptywire", "framing:stream", "decoded-error", "multi-MiB", "multi-member"}
+var c14Need = []string{"status:206", "status:204", "status:304", "short:boundary", "short:anywhere", "short-decoded", "decoded", "untouched", "HEAD", "Range", "decoded:gzip", "decoded:deflate", "decoded:br", "decoded:zstd", "stream:trunc", "stream:flip", "stream:emptywire", "framing:stream", "decoded-error", "multi-MiB", "multi-member"}
 
 // TestVerif_C14_e2e_h1: HTTP/1.1.
 func TestVerif_C14_e2e_h1(t *testing.T) {
@@ -1081,7 +1151,7 @@ func TestVerif_C14_cross(t *testing.T) {
 			}
 			s.Count("short")
 		}
-		if b.stream == "emptywire" || (len(b.wire) == 0 && len(b.ce) > 0 && b.method != "HEAD") {
+		if b.stream == "emptywire" || (len(b.wire) == 0 && len(b.ce) > 0 && b.method != "HEAD") || b.bodiless() {
 			same = answers[0] == answers[1]
 			s.Count("emptywire")
 		}
